@@ -481,6 +481,15 @@ func c16E2E(c *caseCtx) (res caseResult) {
 			dc.Close()
 		}
 	}
+	// in half of the cases the node is, all the while, trying to reach a peer that is not there: its
+	// stream writer for that address exists (and is addressable) before it has a connection
+	writerIDs := []string{writerID}
+	if c.n%2 == 0 {
+		gone := freeAddrs(c, 3)[2]
+		e.Send(actor.NewPID(gone, "nobody"), &remote.TestMessage{Data: []byte("into the void")})
+		time.Sleep(50 * time.Millisecond)
+		writerIDs = append(writerIDs, "stream/"+gone)
+	}
 	nIn := 30
 	kinds := map[string]int{}
 	for i := 0; i < nIn; i++ {
@@ -514,8 +523,11 @@ func c16E2E(c *caseCtx) (res caseResult) {
 				for i := range env.Targets {
 					env.Targets[i].Address = addrs[0]
 					if r.Intn(3) == 0 {
-						env.Targets[i].ID = writerID // an internal actor of the node
+						env.Targets[i].ID = writerIDs[r.Intn(len(writerIDs))] // an internal actor of the node
 						kinds["addressed-to-stream-writer"]++
+						if env.Targets[i].ID != writerID {
+							kinds["addressed-to-a-writer-that-is-still-dialing"]++
+						}
 					}
 				}
 				payload, _ = env.MarshalVT()
